@@ -728,6 +728,36 @@ def run_c03(ctx, g):
                 continue
             # cut fragments only have allowed note values after re-quantisation
             cases.append((len(cases), c, pc, cuts, True if crossing else rng.choice([True, False, "split"])))
+        # call groups of several bars in which a long note crosses the (uncut) inner bar lines and sounds to the very end of
+        # the group while shorter notes are struck after it; the next group follows directly (plain split route)
+        for k in range(6000 if ctx.thorough else 600):
+            num, den = rng.choice([(2, 4), (2, 8), (3, 8), (3, 4), (4, 4)])
+            bar = 96 * num // den
+            nb1 = rng.choice([2, 2, 3])
+            c = dict(random_cfg(rng), ppqn=24, steps=DEFAULT_STEPS, tracks=rng.choice([1, 2]), pitLo=60, pitHi=72)
+            gend = nb1 * bar
+            s0 = 2 * rng.randint(0, bar // 2 - 1)
+            vals = sorted({gend - s0, 6, 12, 24})
+            c["values"] = vals
+            notes = [{"p": 60, "s": s0, "e": gend, "v": 90}]
+            for _ in range(rng.randint(1, 3)):
+                s1 = s0 + 2 * rng.randint(1, max(1, (gend - s0) // 2 - 4))
+                v1 = rng.choice([6, 12])
+                if s1 + v1 <= gend - 2 and (s1 // bar) == ((s1 + v1 - 1) // bar):
+                    notes.append({"p": rng.choice([62, 64]), "s": s1, "e": s1 + v1, "v": 70})
+            nb2 = rng.choice([1, 2])
+            notes.append({"p": 65, "s": gend + 2 * rng.randint(0, bar // 2 - 4), "e": 0, "v": 80})
+            notes[-1]["e"] = notes[-1]["s"] + 6
+            busy, keep = {}, []
+            for n in sorted(notes, key=lambda x: x["s"]):
+                if busy.get(n["p"], -1) > n["s"]:
+                    continue
+                busy[n["p"]] = n["e"]
+                keep.append(n)
+            tracks = [keep] + [[] for _ in range(c["tracks"] - 1)]
+            pc = {"tracks": tracks, "sigs": [[0, num, den]], "end": (nb1 + nb2) * bar, "cap": True, "bars": True}
+            cuts = [gend] + ([gend + bar] if nb2 == 2 and rng.random() < .5 else [])
+            cases.append((len(cases), c, pc, cuts, "split"))
     if ctx.fixtures and not ctx.replay:
         for c, pc in fixture_pieces(rng):
             lines = list(range(96, pc["end"], 96))
